@@ -50,7 +50,7 @@ CRYPTO = ["flynn/noise handshake and cipher states by assumed contracts: Encrypt
 
 TELLHUB = f("s/swarmutil", "(*TellHub).checkClosed", "(*TellHub).CloseWithError", "(*TellHub).Receive", "(*TellHub).Deliver")
 ASKHUB = f("s/swarmutil", "(*AskHub).checkClosed", "(*AskHub).CloseWithError", "(*AskHub).Close", "(*AskHub).ServeAsk", "(*AskHub).Deliver")
-DISPATCH = f("p/p2pmux", "(*muxCore).handleRecv", "(*muxCore).serveLoop$1$1")
+DISPATCH = f("p/p2pmux", "(*muxCore).handleRecv", "(*muxCore).serveLoop$1$1", "(*muxCore).serveLoop$1")
 HUBS = ["channels are abstracted to identity + closed flag; the contents of a channel are constrained only by the element predicates declared in the contracts (asserted at every send, assumed at every receive)",
         "callbacks (fn) are assumed to keep the hub invariant and not to touch the request being served (fnspec ensures/preserves, listed per run)",
         "a blocking select is woken by closing a channel iff it has a receive case on that channel (Go runtime semantics, assumed)",
@@ -75,7 +75,7 @@ PROPS = [
     dict(id="C08", functions=MUX + FRAG_WIRE + FRAG_AGG + HDR + BITMAP + COLL, assumptions=COMMON + BINARY),
     dict(id="C09", functions=VEC + FRAG_SEND + f("s/fragswarm", "newMessage", "appendUvarint") + MB_SEND + HDR + f("p/p2pmux", "(*muxedSwarm).MTU") + f("s/vswarm", "(*SecureRealm).tell", "(*SecureRealm).ask"), assumptions=COMMON + BINARY),
     dict(id="C10", functions=FRAG_WIRE + FRAG_AGG + BITMAP + COLL, assumptions=COMMON + BINARY),
-    dict(id="C11", functions=ASKHUB + f("p/p2pmux", "(*muxCore).serveLoop$1$1") + f("s/vswarm", "(*SecureRealm).ask") + f("p/mbapp", "(*ask).complete") + f("s/sshswarm", "(*Swarm).Ask"),
+    dict(id="C11", functions=ASKHUB + f("p/p2pmux", "(*muxCore).serveLoop$1$1", "(*muxCore).serveLoop$1") + f("s/vswarm", "(*SecureRealm).ask") + f("p/mbapp", "(*ask).complete") + f("s/sshswarm", "(*Swarm).Ask"),
          assumptions=COMMON + HUBS + ["sshswarm's connection table and SSH transport are behind trusted contracts (getConn, Conn.Send)"]),
     dict(id="C12", functions=TELLHUB + ASKHUB + f("s/swarmutil", "(*Queue).Receive") + f("s/multiswarm", "(*multiSwarm).Close"), assumptions=COMMON + HUBS),
     dict(id="C13", functions=TELLHUB + ASKHUB + f("s/swarmutil", "(*Queue).Receive") + f("s/udpswarm", "(*Swarm).Receive"), assumptions=COMMON + HUBS + ["net.UDPConn.ReadFromUDP blocks on the socket only (no cancellation, no deadline set by the caller): model"]),
@@ -92,7 +92,7 @@ PROPS = [
     dict(id="C20", functions=DHT + KAD_LAWS, assumptions=COMMON + ["callbacks (Ask, Validate, AddPeer) are arbitrary but do not touch the iteration's local state",
          "slices.SortFunc permutes its slice and has no other effect (model)", "termination is not decided",
          "map keys of array type are compared element-wise (tuple encoding)"]),
-    dict(id="C19", functions=KAD_LAWS + f("p/kademlia", "(*Cache).bucketIndex", "bitAt", "(*Cache).ForEach"), lemmas=["kademlia_bucket_order_32"],
+    dict(id="C19", functions=KAD_LAWS + f("p/kademlia", "(*Cache).bucketIndex", "bitAt", "(*Cache).ForEach", "(*Cache).ForEachCloser$1"), lemmas=["kademlia_bucket_order_32"],
          assumptions=COMMON + ["bucket.forEach emits a bucket's entries sorted by distance (slices.SortFunc with DistanceLt as a strict weak order: assumed) and writes nothing of the cache (assumed frame)",
                                "the step from bucket visiting order to nearest-first order of entries is the lemma lemmas/kademlia_bucket_order_32.smt2, checked for 32-bit keys on every run (bounded, not counted as proved)"]),
 ]
